@@ -395,7 +395,7 @@ theorem answers_from_state (F : Fns) (s : St) (q : Query) (hc : Coherent F s)
       | none => have := hc.dmNone (Or.inr hm); simp [this, Out.obs]
       | some m =>
         obtain ⟨d, hd, _⟩ := hc.dmSome a m hfc hm
-        have hg : (gvOr s.o.gv d).dm = d := by
+        have hg : (gvOr s.o.gv d s.o.gvDeltaQ).dm = d := by
           cases hgv : s.o.gv with
           | none => rfl
           | some g => have := hc.gv g hgv; rw [hd] at this; exact (Option.some.inj this).symm
@@ -445,6 +445,157 @@ theorem history_independent_runs (F : Fns) (hF : Lawful F) (m₁ m₂ : Option V
   history_independent F _ _ q (coherent_reachable_partial F hF m₁ ops₁ d₁) (coherent_reachable_partial F hF m₂ ops₂ d₂)
     (fun h => by rw [hq] at h; cases h) (fun h => by rw [hq] at h; cases h) he
 
+
+/-! ### stored result objects (`mesh`, `band_structure`, `thermal_properties`, `total_dos`)
+
+`api_phonopy.py` never resets them: after `ph.masses = …` the object still hands out the mesh
+computed with the old masses, and `run_thermal_properties` computes from that stored mesh. -/
+
+/-- operations that change the parameters the phonons depend on -/
+def changesParams : Op → Bool
+  | .setFc _ | .produceFc _ | .produceFcWith _ | .symmetrizeFc _ | .symmetrizeFcSpaceGroup | .cutoff _
+  | .setNac _ | .setMasses _ => true
+  | _ => false
+
+/-- **which result objects are invalidated: none.**  Every operation other than `run_<d>` itself
+leaves the stored result object `d` exactly as it was. -/
+theorem derived_never_invalidated (F : Fns) (s : St) (op : Op) (d : Derived) (hop : op ≠ .query (.run d)) :
+    (step F s op).1.o.derivedGet d = s.o.derivedGet d :=
+  step_derived F s op d hop
+
+theorem params_unchanged (F : Fns) (s : St) (op : Op) (hc : Coherent F s) (hs : ¬ MutatesReachable s op)
+    (hp : changesParams op = false) :
+    (step F s op).1.o.fc = s.o.fc ∧ (step F s op).1.o.masses = s.o.masses ∧
+    (step F s op).1.o.fc.map (step F s op).1.h.cells = s.o.fc.map s.h.cells ∧
+    (step F s op).1.o.nac.map (step F s op).1.h.cells = s.o.nac.map s.h.cells := by
+  have alloc : ∀ (v : Val) (b : Bool) (k : Kind),
+      s.o.fc.map (s.h.alloc v b k).cells = s.o.fc.map s.h.cells ∧
+      s.o.nac.map (s.h.alloc v b k).cells = s.o.nac.map s.h.cells := fun v b k =>
+    ⟨map_cells_congr s.o.fc (fun a ha => alloc_cells_old (hc.allocFc a ha)),
+     map_cells_congr s.o.nac (fun a ha => alloc_cells_old (hc.allocNac a ha))⟩
+  have wds : ∀ (ds : ArrRef) (w : Val), s.o.dataset = some ds →
+      s.o.fc.map (s.h.write ds w).cells = s.o.fc.map s.h.cells ∧
+      s.o.nac.map (s.h.write ds w).cells = s.o.nac.map s.h.cells := by
+    intro ds w hds
+    have hk := hc.kindDs ds hds
+    have hne : ∀ r k, s.h.kind r = k → k ≠ .ds → (s.h.write ds w).cells r = s.h.cells r := by
+      intro r k hr hk'
+      have : r ≠ ds := by intro e; rw [e, hk] at hr; exact hk' hr.symm
+      simp [Heap.write, this]
+    exact ⟨map_cells_congr s.o.fc (fun r hr => hne r _ (hc.kindFc r hr) (by decide)),
+      map_cells_congr s.o.nac (fun r hr => hne r _ (hc.kindNac r hr) (by decide))⟩
+  cases op with
+  | setFc a => cases hp
+  | produceFc c => cases hp
+  | produceFcWith f => cases hp
+  | symmetrizeFc l => cases hp
+  | symmetrizeFcSpaceGroup => cases hp
+  | cutoff r => cases hp
+  | setNac a => cases hp
+  | setMasses m => cases hp
+  | newArr v own k => exact ⟨rfl, rfl, (alloc v own k).1, (alloc v own k).2⟩
+  | generate k => exact ⟨rfl, rfl, (alloc _ _ _).1, (alloc _ _ _).2⟩
+  | setForces f =>
+    simp only [step]; split
+    · exact ⟨rfl, rfl, rfl, rfl⟩
+    · next ds hds => exact ⟨rfl, rfl, (wds ds _ hds).1, (wds ds _ hds).2⟩
+  | setEnergies f =>
+    simp only [step]; split
+    · exact ⟨rfl, rfl, rfl, rfl⟩
+    · next ds hds => exact ⟨rfl, rfl, (wds ds _ hds).1, (wds ds _ hds).2⟩
+  | setDataset a =>
+    simp only [step]; split
+    · exact ⟨rfl, rfl, rfl, rfl⟩
+    · split
+      · exact ⟨rfl, rfl, (alloc _ _ _).1, (alloc _ _ _).2⟩
+      · exact ⟨rfl, rfl, rfl, rfl⟩
+  | copy => exact ⟨rfl, rfl, rfl, rfl⟩
+  | callerMutates a v =>
+    simp only [step]; split
+    · have hs' : a ∉ s.o.refs := hs
+      have hw : ∀ r, r ≠ a → (s.h.write a v).cells r = s.h.cells r := by
+        intro r hr; simp [Heap.write, hr]
+      refine ⟨rfl, rfl, map_cells_congr s.o.fc (fun r hr => hw r ?_), map_cells_congr s.o.nac (fun r hr => hw r ?_)⟩
+      · intro e; subst e; exact hs' (by simp [Obj.refs, hr])
+      · intro e; subst e; exact hs' (by simp [Obj.refs, hr])
+    · exact ⟨rfl, rfl, rfl, rfl⟩
+  | query q =>
+    obtain ⟨q1, q2, q3, _, _⟩ := query_params F s q
+    rw [query_heap, q1, q2, q3]
+    exact ⟨rfl, rfl, rfl, rfl⟩
+
+/-- **every stored result object that is kept was computed from the current state** — as long as
+no parameter-changing operation happened since (any number of other operations in between:
+queries, dataset operations, `run_*`, `copy`, unrelated caller activity). -/
+theorem derived_current_step_partial (F : Fns) (s : St) (op : Op) (hc : Coherent F s) (hdc : DerivedCurrent F s)
+    (hs : ¬ MutatesReachable s op) (hp : changesParams op = false) : DerivedCurrent F (step F s op).1 := by
+  obtain ⟨p1, p2, p3, p4⟩ := params_unchanged F s op hc hs hp
+  -- what is current w.r.t. the old state is current w.r.t. the new one
+  have transfer : ∀ p, (∃ a m, s.o.fc = some a ∧ s.o.masses = some m ∧
+        p = specPhonons F false (s.h.cells a) (s.o.nac.map s.h.cells) m) →
+      ∃ a m, (step F s op).1.o.fc = some a ∧ (step F s op).1.o.masses = some m ∧
+        p = specPhonons F false ((step F s op).1.h.cells a) ((step F s op).1.o.nac.map (step F s op).1.h.cells) m := by
+    intro p ⟨a, m, h1, h2, h3⟩
+    refine ⟨a, m, p1.trans h1, p2.trans h2, ?_⟩
+    have : (step F s op).1.o.fc.map (step F s op).1.h.cells = some (s.h.cells a) := by rw [p3, h1]; rfl
+    rw [p1, h1] at this
+    simp only [Option.map_some, Option.some.injEq] at this
+    rw [this, p4]; exact h3
+  -- the snapshot `run_mesh` / `run_band_structure` stores
+  have fresh : ∀ d0 m, s.o.dm = some d0 → s.o.masses = some m →
+      ∃ a m', s.o.fc = some a ∧ s.o.masses = some m' ∧
+        phononsOf s.h (touchGonze s.h d0) m = specPhonons F false (s.h.cells a) (s.o.nac.map s.h.cells) m' := by
+    intro d0 m hd hm
+    rcases Option.eq_none_or_eq_some s.o.fc with hfc | ⟨a, hfc⟩
+    · have := hc.dmNone (Or.inl hfc); rw [hd] at this; cases this
+    · exact ⟨a, m, hfc, hm, phonons_eq_spec F s hc a m d0 hfc hm hd⟩
+  intro d p hget
+  apply transfer
+  by_cases hop : op = .query (.run d)
+  · subst hop
+    rw [run_snapshot] at hget
+    cases d with
+    | mesh =>
+      simp only at hget
+      rcases Option.eq_none_or_eq_some s.o.dm with hdm | ⟨d0, hdm⟩
+      · rw [hdm] at hget; exact hdc .mesh p hget
+      · rcases Option.eq_none_or_eq_some s.o.masses with hm | ⟨m, hm⟩
+        · rw [hdm, hm] at hget; exact hdc .mesh p hget
+        · rw [hdm, hm] at hget; cases hget; exact fresh d0 m hdm hm
+    | band =>
+      simp only at hget
+      rcases Option.eq_none_or_eq_some s.o.dm with hdm | ⟨d0, hdm⟩
+      · rw [hdm] at hget; exact hdc .band p hget
+      · rcases Option.eq_none_or_eq_some s.o.masses with hm | ⟨m, hm⟩
+        · rw [hdm, hm] at hget; exact hdc .band p hget
+        · rw [hdm, hm] at hget; cases hget; exact fresh d0 m hdm hm
+    | tp =>
+      simp only at hget
+      rcases Option.eq_none_or_eq_some s.o.mesh with hme | ⟨pm, hme⟩
+      · rw [hme] at hget; exact hdc .tp p hget
+      · rw [hme] at hget; simp only [Option.some.injEq] at hget; rw [← hget]; exact hdc .mesh pm hme
+    | dos =>
+      simp only at hget
+      rcases Option.eq_none_or_eq_some s.o.mesh with hme | ⟨pm, hme⟩
+      · rw [hme] at hget; exact hdc .dos p hget
+      · rw [hme] at hget; simp only [Option.some.injEq] at hget; rw [← hget]; exact hdc .mesh pm hme
+  · rw [step_derived F s op d hop] at hget
+    exact hdc d p hget
+
+theorem derived_current_init (F : Fns) (m : Option Val) (fsf : Bool := false) : DerivedCurrent F (St.init m fsf) := by
+  intro d p h; cases d <;> simp [St.init, Obj.init, Obj.derivedGet] at h
+
+/-- result objects stay current along any disciplined history without parameter changes -/
+theorem derived_current_run_partial (F : Fns) (hF : Lawful F) (ops : List Op) : ∀ (s : St), Coherent F s →
+    DerivedCurrent F s → Disciplined F s ops → (∀ op ∈ ops, changesParams op = false) →
+    Coherent F (run F s ops) ∧ DerivedCurrent F (run F s ops) := by
+  induction ops with
+  | nil => intro s hc hdc _ _; exact ⟨hc, hdc⟩
+  | cons op ops ih =>
+    intro s hc hdc hd hp
+    exact ih _ (coherent_step_partial F hF s op hc hd.1)
+      (derived_current_step_partial F s op hc hdc hd.1 (hp op List.mem_cons_self)) hd.2
+      (fun op' h' => hp op' (List.mem_cons_of_mem _ h'))
 
 /-! ### the full statements, and where the current code refutes them
 
@@ -540,6 +691,65 @@ theorem refinement_fsf_counterexample : ¬ FullRefinementAnyOption := by
   intro h
   have hc := coherent_run_partial Fex Fex_lawful [.newArr 5 true .fc, .setFc 0] _ (coherent_init Fex (some 1) true) (by decide)
   exact absurd (h Fex _ .freq hc) (by decide)
+
+/-! #### stored result objects after a setter -/
+
+/-- `ph.force_constants = A; ph.run_mesh(); ph.masses = m2` -/
+def exStaleMesh : List Op := [.newArr 5 true .fc, .setFc 0, .query (.run .mesh), .setMasses 2]
+
+/-- full statement: along every disciplined history (no aliasing involved, documented constructor
+options) every query — including those on stored result objects — answers as a fresh object on
+which the same `run_*` were executed -/
+def FullRefinementDerived : Prop := ∀ (F : Fns) (m : Option Val) (ops : List Op) (q : Query),
+  Disciplined F (St.init m) ops →
+    (step F (run F (St.init m) ops) (.query q)).2.obs = specQuery F (abs (run F (St.init m) ops)) q
+
+/-- after the setter the stored mesh still reports the phonons of the old masses … -/
+theorem derived_stale_counterexample : ¬ FullRefinementDerived := fun h =>
+  absurd (h Fex (some 1) exStaleMesh (.get .mesh) (by decide)) (by decide)
+
+/-- … and `run_thermal_properties` computes from that stale mesh -/
+theorem thermal_properties_stale_counterexample :
+    Disciplined Fex (St.init (some 1)) exStaleMesh ∧
+    (step Fex (run Fex (St.init (some 1)) exStaleMesh) (.query (.run .tp))).2.obs
+      = .phonons { ph := ⟨.plain, 5, none, 1⟩, gv := none } ∧
+    specQuery Fex (abs (run Fex (St.init (some 1)) exStaleMesh)) (.run .tp)
+      = .phonons { ph := ⟨.plain, 5, none, 2⟩, gv := none } := by decide
+
+/-- re-running the mesh first makes both current again -/
+example : (step Fex (run Fex (St.init (some 1)) (exStaleMesh ++ [.query (.run .mesh)])) (.query (.run .tp))).2.obs
+    = specQuery Fex (abs (run Fex (St.init (some 1)) (exStaleMesh ++ [.query (.run .mesh)]))) (.run .tp) := by decide
+
+/-! #### the hidden configuration of group velocities
+
+`Phonopy._gv_delta_q` is a constructor option; `GroupVelocity(dm, q_length=self._gv_delta_q)` uses
+the analytical derivative of the dynamical matrix unless `q_length` is given or the dynamical
+matrix is Gonze–Lee. -/
+
+/-- no operation of the API writes `_gv_delta_q` -/
+theorem gv_delta_q_constant (F : Fns) (s : St) (ops : List Op) : (run F s ops).o.gvDeltaQ = s.o.gvDeltaQ := by
+  induction ops generalizing s with
+  | nil => rfl
+  | cons op ops ih => exact (ih _).trans (step_gvdq F s op)
+
+/-- in every reachable state — any history, aliasing or not — the group-velocity object was
+constructed with the option the object was constructed with: a fresh object constructed the same
+way differentiates the same way (analytically iff no `group_velocity_delta_q` and not Gonze–Lee) -/
+theorem gv_config_reachable (F : Fns) (m : Option Val) (fsf : Bool) (q : Option Val) (ops : List Op) :
+    ∀ g, (run F (St.init m fsf q) ops).o.gv = some g → g.qLength = q := by
+  have h : ∀ (ops : List Op) (s : St), GvConfigO s.o → GvConfigO (run F s ops).o := by
+    intro ops
+    induction ops with
+    | nil => intro s hs; exact hs
+    | cons op ops ih => intro s hs; exact ih _ (step_gvconfig F s op hs)
+  intro g hg
+  have h0 : GvConfigO (St.init m fsf q).o := by intro g hg; simp [St.init, Obj.init] at hg
+  rw [h ops _ h0 g hg, gv_delta_q_constant]
+  rfl
+
+/-- `copy()` carries the option -/
+example : (step Fex (run Fex (St.init (some 1) false (some 9)) [.newArr 5 true .fc, .setFc 0, .query .freqGV]) .copy).2
+    = .copied (Obj.init (some 1) false (some 9)) := by decide
 
 /-! #### arrays handed in by the caller are not modified -/
 
@@ -655,7 +865,7 @@ theorem copy_independent (F : Fns) (s : St) (c : Obj) (hc : Coherent F s)
     (∀ ops q, (∀ op ∈ ops, ∀ a ∈ op.named, ¬ Reach s.o a) →
       (step F ⟨(run F ⟨s.h, c⟩ ops).h, s.o⟩ (.query q)).2.obs = (step F s (.query q)).2.obs) ∧
     (∀ ops q, (step F ⟨(run F s ops).h, c⟩ (.query q)).2.obs = (step F ⟨s.h, c⟩ (.query q)).2.obs) := by
-  have hcq : c = Obj.init s.o.masses s.o.fsf := by
+  have hcq : c = Obj.init s.o.masses s.o.fsf s.o.gvDeltaQ := by
     simp only [step, Out.copied.injEq] at hcopy; exact hcopy.symm
   have hnone : ∀ r, ¬ Reach c r := by
     intro r hr; rw [hcq] at hr; simp [Reach, Obj.init] at hr
@@ -690,6 +900,13 @@ example : Disciplined Fex (St.init (some 1)) exForces := by decide
 example : (run Fex (St.init (some 1)) exForces).h.cells 0 = 4 ∧
     (step Fex (run Fex (St.init (some 1)) exForces) (.query .getDataset)).2.obs = .val (some 5004) ∧
     (step Fex (run Fex (St.init (some 1)) exForces) (.query .getDisps)).2.obs = .val (some 4) := by decide
+/-- `generate_displacements` gives a dataset without forces; compact force constants cannot be
+symmetrised by the space group -/
+example : (step Fex (run Fex (St.init (some 1)) [.generate 1]) (.produceFc false)).2 = .err .noForces ∧
+    (step Fex (run Fex (St.init (some 1)) [.generate 1, .setForces 0, .produceFc true]) .symmetrizeFcSpaceGroup).2
+      = .err .notFull ∧
+    (step Fex (run Fex (St.init (some 1)) [.generate 1, .setForces 0, .produceFc true, .symmetrizeFc 1, .cutoff 1])
+      (.query .freq)).2.obs = .phonons { ph := ⟨.plain, 4065, none, 1⟩, gv := none } := by decide
 /-- masses unknown (e.g. Tc): no dynamical matrix until masses are set -/
 example : (step Fex (run Fex (St.init none) [.newArr 5 true .fc, .setFc 0]) (.query .freq)).2 = .err .noDM := by decide
 example : (step Fex (run Fex (St.init none) [.newArr 5 true .fc, .setFc 0, .setMasses 3]) (.query .freq)).2.obs
@@ -712,6 +929,13 @@ end PhononModel.C15
 #print axioms PhononModel.C15.same_masses_noop
 #print axioms PhononModel.C15.same_masses_noop_fsf_counterexample
 #print axioms PhononModel.C15.refinement_fsf_counterexample
+#print axioms PhononModel.C15.derived_never_invalidated
+#print axioms PhononModel.C15.derived_current_step_partial
+#print axioms PhononModel.C15.derived_current_run_partial
+#print axioms PhononModel.C15.derived_stale_counterexample
+#print axioms PhononModel.C15.thermal_properties_stale_counterexample
+#print axioms PhononModel.C15.gv_delta_q_constant
+#print axioms PhononModel.C15.gv_config_reachable
 #print axioms PhononModel.C15.no_alias_in_counterexample
 #print axioms PhononModel.C15.no_alias_in_partial
 #print axioms PhononModel.C15.no_alias_out_counterexample
